@@ -52,6 +52,8 @@ pub struct FnInfo {
     pub name: String,
     pub self_mode: SelfMode,
     pub params: Vec<(String, Ty)>,
+    /// parameters passed as `&mut <semantic-model type>`: threaded through (returned with the result)
+    pub mut_params: Vec<String>,
     /// declared return type (`Ty::Res` for `Result`)
     pub ret: Ty,
     /// position in the emission order
@@ -68,6 +70,8 @@ impl FnInfo {
 }
 
 pub struct Globals {
+    /// (source error type, target error type) -> key of the translated `From::from`
+    pub from_impls: Vec<(String, String, (Option<String>, String))>,
     pub structs: BTreeMap<String, StructInfo>,
     pub enums: BTreeMap<String, EnumInfo>,
     pub consts: BTreeMap<String, Vec<ConstInfo>>,
@@ -112,6 +116,28 @@ pub fn find<'a>(path: &str, file: &'a syn::File, sel: &Sel) -> R<Found<'a>> {
             (Sel::Fn(n), syn::Item::Fn(f)) if f.sig.ident == n && !has_cfg_test(&f.attrs) => {
                 hits.push(Found::Fn(&f.sig, &f.block, f.span()))
             }
+            (Sel::From(dst, src), syn::Item::Impl(im)) if im.trait_.is_some() && !has_cfg_test(&im.attrs) => {
+                let (_, tpath, _) = im.trait_.as_ref().unwrap();
+                let last = tpath.segments.last().unwrap();
+                let src_ok = last.ident == "From"
+                    && generic_args(last).first().map(|t| match t {
+                        syn::Type::Path(p) => p.path.segments.last().map(|s| s.ident == src).unwrap_or(false),
+                        _ => false,
+                    }) == Some(true);
+                let dst_ok = match &*im.self_ty {
+                    syn::Type::Path(p) => p.path.segments.last().map(|s| s.ident == dst).unwrap_or(false),
+                    _ => false,
+                };
+                if src_ok && dst_ok {
+                    for ii in &im.items {
+                        if let syn::ImplItem::Fn(f) = ii {
+                            if f.sig.ident == "from" {
+                                hits.push(Found::Fn(&f.sig, &f.block, f.span()));
+                            }
+                        }
+                    }
+                }
+            }
             (Sel::Method(t, n), syn::Item::Impl(im)) if im.trait_.is_none() && !has_cfg_test(&im.attrs) => {
                 let is_t = match &*im.self_ty {
                     syn::Type::Path(p) => p.path.segments.last().map(|s| s.ident == t).unwrap_or(false),
@@ -139,6 +165,7 @@ pub fn find<'a>(path: &str, file: &'a syn::File, sel: &Sel) -> R<Found<'a>> {
         Sel::Enum(n) => format!("enum {}", n),
         Sel::Fn(n) => format!("fn {}", n),
         Sel::Method(t, n) => format!("fn {}::{}", t, n),
+        Sel::From(d, s) => format!("impl From<{}> for {}", s, d),
     };
     Err(TErr {
         file: path.to_string(),
@@ -153,10 +180,17 @@ pub fn find<'a>(path: &str, file: &'a syn::File, sel: &Sel) -> R<Found<'a>> {
 
 impl Globals {
     pub fn build(files: &[(String, syn::File)]) -> R<Globals> {
-        let mut g = Globals { structs: BTreeMap::new(), enums: BTreeMap::new(), consts: BTreeMap::new(), fns: BTreeMap::new() };
+        let mut g = Globals {
+            from_impls: Vec::new(),
+            structs: BTreeMap::new(),
+            enums: BTreeMap::new(),
+            consts: BTreeMap::new(),
+            fns: BTreeMap::new(),
+        };
+        register_builtins(&mut g);
         let file_of = |p: &str| -> &syn::File { &files.iter().find(|(q, _)| q == p).unwrap().1 };
         // pass 1: names of translated types
-        let mut type_names: Vec<String> = Vec::new();
+        let mut type_names: Vec<String> = g.structs.keys().cloned().collect();
         for (path, sels) in MANIFEST {
             for sel in *sels {
                 match sel {
@@ -257,7 +291,12 @@ impl Globals {
                     Found::Fn(sig, _, _) => {
                         let self_ty = match sel {
                             Sel::Method(t, _) => Some(t.to_string()),
+                            Sel::From(d, _) => Some(d.to_string()),
                             _ => None,
+                        };
+                        let fn_name = match sel {
+                            Sel::From(_, s) => format!("from_{}", s),
+                            _ => sig.ident.to_string(),
                         };
                         if sig.generics.params.iter().any(|p| !matches!(p, syn::GenericParam::Lifetime(_))) {
                             return err_at(path, sig.generics.span(), "generic fn is not supported");
@@ -267,6 +306,7 @@ impl Globals {
                         }
                         let mut self_mode = SelfMode::None;
                         let mut params = Vec::new();
+                        let mut mut_params = Vec::new();
                         for a in &sig.inputs {
                             match a {
                                 syn::FnArg::Receiver(r) => {
@@ -278,11 +318,19 @@ impl Globals {
                                 syn::FnArg::Typed(pt) => {
                                     let name = match &*pt.pat {
                                         syn::Pat::Ident(pi) if pi.subpat.is_none() && pi.by_ref.is_none() => pi.ident.to_string(),
+                                        syn::Pat::Wild(_) => "_".to_string(),
                                         other => return err_at(path, other.span(), "unsupported parameter pattern"),
                                     };
                                     if let syn::Type::Reference(r) = &*pt.ty {
-                                        if r.mutability.is_some() && !is_model_type(&r.elem) {
-                                            return err_at(path, pt.ty.span(), "`&mut` parameter (other than self) is not supported");
+                                        if r.mutability.is_some() {
+                                            if !is_model_type(&r.elem) || name == "_" {
+                                                return err_at(
+                                                    path,
+                                                    pt.ty.span(),
+                                                    "`&mut` parameter (other than self or a semantic-model cursor) is not supported",
+                                                );
+                                            }
+                                            mut_params.push(name.clone());
                                         }
                                     }
                                     params.push((name, conv_ty(path, &pt.ty, self_ty.as_deref(), &type_names)?));
@@ -293,12 +341,16 @@ impl Globals {
                             syn::ReturnType::Default => Ty::Unit,
                             syn::ReturnType::Type(_, t) => conv_ty(path, t, self_ty.as_deref(), &type_names)?,
                         };
-                        g.fns.entry((self_ty.clone(), sig.ident.to_string())).or_default().push(FnInfo {
+                        if let Sel::From(d, s) = sel {
+                            g.from_impls.push((s.to_string(), d.to_string(), (self_ty.clone(), fn_name.clone())));
+                        }
+                        g.fns.entry((self_ty.clone(), fn_name.clone())).or_default().push(FnInfo {
                             ns: ns.clone(),
                             self_ty,
-                            name: sig.ident.to_string(),
+                            name: fn_name,
                             self_mode,
                             params,
+                            mut_params,
                             ret,
                             order,
                         });
@@ -311,8 +363,54 @@ impl Globals {
 }
 
 /// by-value semantic models (`&mut` parameters of these types are threaded through)
-pub fn is_model_type(_t: &syn::Type) -> bool {
-    false
+pub fn is_model_type(t: &syn::Type) -> bool {
+    match t {
+        syn::Type::Path(p) => p.path.segments.last().map(|s| s.ident == "OctetsMut" || s.ident == "Octets").unwrap_or(false),
+        _ => false,
+    }
+}
+
+pub const BUILTIN_NS: &str = "RustSem";
+
+/// The semantic-model types of RustSem and their methods (hand-written in RustSem.lean, trusted):
+/// `std::ops::Range<u64>`, `octets::{OctetsMut, Octets, BufferTooShortError}`.
+fn register_builtins(g: &mut Globals) {
+    let ns = BUILTIN_NS.to_string();
+    g.structs.insert(
+        "Range".into(),
+        StructInfo { ns: ns.clone(), name: "Range".into(), fields: vec![("start".into(), Ty::Int(64)), ("end".into(), Ty::Int(64))] },
+    );
+    for n in ["OctetsMut", "Octets", "BufferTooShortError"] {
+        g.structs.insert(n.into(), StructInfo { ns: ns.clone(), name: n.into(), fields: vec![] });
+    }
+    let bts = Ty::Named("BufferTooShortError".into());
+    let bytes = Ty::List(Box::new(Ty::u8()), ListKind::Slice);
+    let mut add = |st: &str, name: &str, mode: SelfMode, params: Vec<(&str, Ty)>, ret: Ty| {
+        g.fns.entry((Some(st.to_string()), name.to_string())).or_default().push(FnInfo {
+            ns: ns.clone(),
+            self_ty: Some(st.to_string()),
+            name: name.to_string(),
+            self_mode: mode,
+            params: params.into_iter().map(|(a, b)| (a.to_string(), b)).collect(),
+            mut_params: vec![],
+            ret,
+            order: 0,
+        });
+    };
+    let res = |t: Ty| Ty::Res(Box::new(t), Box::new(bts.clone()));
+    add("OctetsMut", "put_u8", SelfMode::Mut, vec![("v", Ty::Int(8))], res(Ty::Unit));
+    add("OctetsMut", "put_u16", SelfMode::Mut, vec![("v", Ty::Int(16))], res(Ty::Unit));
+    add("OctetsMut", "put_u32", SelfMode::Mut, vec![("v", Ty::Int(32))], res(Ty::Unit));
+    add("OctetsMut", "put_u64", SelfMode::Mut, vec![("v", Ty::Int(64))], res(Ty::Unit));
+    add("OctetsMut", "put_varint", SelfMode::Mut, vec![("v", Ty::Int(64))], res(Ty::Unit));
+    add("OctetsMut", "put_bytes", SelfMode::Mut, vec![("v", bytes.clone())], res(Ty::Unit));
+    add("Octets", "get_u8", SelfMode::Mut, vec![], res(Ty::Int(8)));
+    add("Octets", "get_u16", SelfMode::Mut, vec![], res(Ty::Int(16)));
+    add("Octets", "get_u32", SelfMode::Mut, vec![], res(Ty::Int(32)));
+    add("Octets", "get_u64", SelfMode::Mut, vec![], res(Ty::Int(64)));
+    add("Octets", "get_varint", SelfMode::Mut, vec![], res(Ty::Int(64)));
+    add("Octets", "get_bytes", SelfMode::Mut, vec![("len", Ty::Int(64))], res(Ty::Named("Octets".into())));
+    add("Octets", "get_bytes_with_varint_length", SelfMode::Mut, vec![], res(Ty::Named("Octets".into())));
 }
 
 fn path_segments(p: &syn::Path) -> Vec<String> {
@@ -386,6 +484,12 @@ pub fn conv_ty(file: &str, t: &syn::Type, self_ty: Option<&str>, type_names: &[S
                     ))
                 }
                 ("Bytes", 0) => return Ok(Ty::List(Box::new(Ty::u8()), ListKind::Bytes)),
+                ("Range", 1) => {
+                    return match conv_ty(file, args[0], self_ty, type_names)? {
+                        Ty::Int(64) => Ok(Ty::Named("Range".into())),
+                        _ => err_at(file, t.span(), "only `Range<u64>` is supported"),
+                    }
+                }
                 _ => {}
             }
             if type_names.iter().any(|n| *n == name) {
